@@ -133,7 +133,7 @@ class TraceProp(Prop):
         if kinds.get('rollback'):
             out.tags.append('rollback')
         out.nontrivial = ntx >= 2 or maxfl >= 2
-        out.key = json.dumps([spec.get('shape'), spec['options'], spec.get('plugins'), case['program']], sort_keys=True)
+        out.key = json.dumps([spec.get('shape'), spec['options'], spec.get('plugins'), case.get('program')], sort_keys=True)
 
     def judge(self, case, obs, answers):
         out = Outcome()
@@ -264,8 +264,9 @@ def _row_switch_in(program):
 
 class C01(TraceProp):
     id = 'C01'
-    theorems = ['Continuum.c01_holds', 'Continuum.liveInv_after_commit', 'Continuum.liveInv_after_rollback',
-                'Continuum.liveInv_init', 'Continuum.inv_run']
+    theorems = ['Continuum.c01_holds_corrected', 'Continuum.liveInv_after_commit_corrected', 'Continuum.liveInv_after_rollback',
+                'Continuum.liveInv_init', 'Continuum.inv_run', 'Continuum.c01_newestIsLive', 'Continuum.c01_removedIsDelete',
+                'Continuum.c01_onlyRealChanges', 'Continuum.c01_changedHasRow', 'Continuum.c01_deleteVals', 'Continuum.c01_pastKept']
     sections = ('versions',)
     seg_fields = ('C01',)
     rule = ('random session programs (add / set incl. same value and NULL / delete / re-add of a deleted key / '
@@ -353,7 +354,8 @@ class C11(TraceProp):
 
 class C13(TraceProp):
     id = 'C13'
-    theorems = ['Continuum.c01_holds', 'Continuum.c02_holds']
+    theorems = ['Continuum.c01_holds_corrected', 'Continuum.c01_onlyRealChanges', 'Continuum.c02_holds',
+                'Continuum.Schema.c13_no_column', 'Continuum.Schema.include_beats_exclude']
     sections = ('versions', 'txs')
     seg_fields = ('C01', 'C02')
     shapes = ['articles_excl', 'articles_excl', 'aliased', 'comment']
